@@ -1618,7 +1618,8 @@ class QueryBuilder(Selectable, Term):
         return " SET {set}".format(
             set=",".join(
                 "{field}={value}".format(
-                    field=field.get_sql(**dict(kwargs, with_namespace=False)), value=value.get_sql(**kwargs)
+                    field=field.get_sql(**dict(kwargs, with_namespace=False)),
+                    value=value.get_sql(**dict(kwargs, subquery=True)),
                 )
                 for field, value in self._updates
             )
